@@ -170,4 +170,6 @@ def run(chk, tier):
         raise facts.MissingAnchor("AsNumbers::serialize")
     ncast = [x for c, x in H.calls(hn2[0]["body"]) if c and c.endswith("NumCast::from")]
     chk.expect(len(ncast) == 2, "ser-no-lossy-cast", "AsNumbers::serialize", "64-bit-narrowing-checked", "NumCast::from for I64 and U64", len(ncast), loc=C.fn_loc(hn2[0]))
+    from . import shared
+    shared.text_values_as_stored(chk, fx, "text-values-as-stored")
     chk.undecided.append("equality of the data set after the round trip; panics inside serde_json/base64/serde (trusted boundary)")
